@@ -336,6 +336,9 @@ fn rand_string(c: &mut Choices) -> String {
             1 => char::from_u32(0x800 + c.below(0xD000) as u32),
             2 => char::from_u32(0x10000 + c.below(0xFFFF) as u32),
             3 => Some(*c.pickv(&['\n', '\t', ' ', '\\', '\'', '{', '}', '#'])),
+            // scalars that tolerant decoders like to treat specially: BOM / zero-width, line separators, the last
+            // code points of each encoding length, non-characters, the replacement character
+            4 => Some(*c.pickv(&['\u{feff}', '\u{fffe}', '\u{ffff}', '\u{200b}', '\u{2028}', '\u{85}', '\u{7f}', '\u{7ff}', '\u{800}', '\u{d7ff}', '\u{e000}', '\u{fffd}', '\u{10ffff}', '\u{1}', '\r'])),
             _ => char::from_u32(0x20 + c.below(0x5f) as u32),
         };
         match ch {
